@@ -56,14 +56,9 @@ def extract(config, repo="/repo"):
     nonce = "%d-%d" % (time.time_ns(), os.getpid())
     env = dict(os.environ)
     env["VDRV_NONCE"] = nonce
-    lock = open(os.path.join(WORK, "extract-%s.lock" % config), "w")
-    fcntl.flock(lock, fcntl.LOCK_EX)
-    try:
-        p = subprocess.run([os.path.join(VERIF, "engine/extract.sh"), config, out, repo],
-                           env=env, capture_output=True, text=True)
-    finally:
-        fcntl.flock(lock, fcntl.LOCK_UN)
-        lock.close()
+    # extract.sh serialises extractions per target directory with flock(1)
+    p = subprocess.run([os.path.join(VERIF, "engine/extract.sh"), config, out, repo],
+                       env=env, capture_output=True, text=True)
     if p.returncode != 0:
         raise RuntimeError("extraction failed (config %s):\n%s\n%s" % (config, p.stdout, p.stderr))
     f = Facts(out)
